@@ -26,6 +26,12 @@ CHECKS.update({
    text='For + - * % and == on Dual and Dual2, z3 proves on every feasible path that replacing operand a by ANY re-layout a\' (symbolic name list of length 0..2/0..3: other order, extra names with zero derivative, dropped zero-derivative names, variable list shared with b or not; constrained only to have the same value and the same derivative per name) yields a result that is equal per name, equal under the crate\'s own ==, carries exactly the union of names once each with matching array shapes, that a\'==a, and that a==b holds exactly when values and all per-name derivatives agree (missing name = zero).',
    note='Reals instead of floats; list lengths <=2 quick / <=3 thorough (<=2 for Dual2); division is covered by C01/C02 clauses (vars = union, shapes).'),
 })
+CHECKS.update({
+ 'C17': dict(engine='mirsym', technique='symbolic execution of the MIR of gradient1 / gradient2 / gradient1_manifold (and the Dual2 * and + bodies for the product rule) with symbolic stored and requested name lists; z3 validity query per path; native replay',
+   category='model_checking', design_ref='DESIGN.md §3.17',
+   text='z3 proves for stored lists of 0..2/0..3 symbolic names and requested lists of 0..2/0..3 symbolic distinct names (equal to, permutation of, subset, superset of or disjoint from the stored list - the solver chooses) that gradient1 returns out[i] = derivative w.r.t. requested name i (0 if absent), gradient2 returns out[i][j] = second derivative by name, gradient1_manifold returns numbers whose value is the first derivative and whose gradient is the matching Hessian row, and that m_a*b + a*m_b reproduces gradient and Hessian of a*b for two Dual2 numbers with 0..2 names.',
+   note='Reals instead of floats; requested lists with duplicates are outside the property. Finding fixed: see known_findings.json.'),
+})
 NA_REASON = 'no registered check in this revision yet (work in progress; planned solver-based check described in DESIGN.md §3) — not claimed'
 
 checks = []
@@ -54,7 +60,7 @@ m = {
            'add_only': True},
  'engines': [
    {'name': 'kani', 'path': '/verif/kani', 'serves_properties': ['C08', 'C11', 'C20', 'C04'], 'kind_free_text': 'Kani 0.68 / CBMC 6.11 proof harnesses over the compiled crate (path dependency on /repo), native replay binary in the same crate'},
-   {'name': 'mirsym', 'path': '/verif/mirsym', 'serves_properties': ['C01','C02','C03'], 'kind_free_text': 'symbolic executor for rustc MIR (regenerated from /repo on every run) discharging path obligations with z3'},
+   {'name': 'mirsym', 'path': '/verif/mirsym', 'serves_properties': ['C01','C02','C03','C17'], 'kind_free_text': 'symbolic executor for rustc MIR (regenerated from /repo on every run) discharging path obligations with z3'},
    {'name': 'tables', 'path': '/verif/tables', 'serves_properties': ['C07'], 'kind_free_text': 'SMT encoding of the static holiday tables against the published rules over a symbolic day'},
  ],
  'checks': checks,
